@@ -9,20 +9,27 @@ import time
 
 from runner import VERIF, WORK, Inconclusive
 
-KNOWN_PATH = os.path.join(VERIF, "known_findings.json")
-EVIDENCE_DIR = os.path.join(VERIF, "evidence")
-REPLAY_DIR = os.path.join(VERIF, "replays")
+KNOWN_DIR = os.path.join(VERIF, "known_findings")
+# Scratch runs (VERIF_WORK / VERIF_REPO set by a developer) must not overwrite the real evidence.
+_OUT_BASE = VERIF if os.path.abspath(WORK).startswith(os.path.abspath(VERIF) + os.sep) else os.path.dirname(os.path.abspath(WORK))
+EVIDENCE_DIR = os.path.join(_OUT_BASE, "evidence")
+REPLAY_DIR = os.path.join(_OUT_BASE, "replays")
 
 LEVELS = {}
 
 
 def load_known():
+    """Known findings live in /verif/known_findings/<ID>.json (committed, never written at run time)."""
+    out = []
     try:
-        with open(KNOWN_PATH) as f:
-            data = json.load(f)
+        names = sorted(os.listdir(KNOWN_DIR))
     except FileNotFoundError:
-        return []
-    return data.get("findings", [])
+        return out
+    for name in names:
+        if name.endswith(".json"):
+            with open(os.path.join(KNOWN_DIR, name)) as f:
+                out.extend(json.load(f).get("findings", []))
+    return out
 
 
 def sanitize_sig(sig):
